@@ -80,8 +80,8 @@ def gen_bsd0(r, base):
 def run(tier, seed, replay=None):
     res = C.Result("C08", tier, seed)
     res.rule = ("histories of add / remove / set-priority / clear over 4 real archives with overlapping names and priorities {-1,0,0,5}: every history of length <=2 "
-                "(quick; <=3 thorough) exhaustively plus seeded longer ones, sequential and parallel construction; per history every queried spelling is looked up "
-                "through the real PatchChain and through the model; COPY/BSD0 patch files (well-formed, then header fields and payload bytes altered) applied by the real "
+                "(quick; <=3 thorough) exhaustively, every order of three archives at distinct priorities followed by a removal, plus seeded longer ones, sequential and parallel construction; per history every queried spelling is looked up "
+                "through the real PatchChain and through the model; COPY/BSD0 patch files (well-formed, then header fields, digests (incl. all-zero) and payload bytes altered) applied by the real "
                 "apply_patch and by the model; non-trivial = history contains at least one add; distinct = distinct case line")
     res.assumptions = ["an archive inside the chain is abstracted to 'listed name -> content' (tie to real archives: C01); names are ASCII",
                        "patch entries inside archives (FLAG_PATCH_FILE) cannot be produced by the builder; the patch applier is exercised directly"]
@@ -113,6 +113,19 @@ def run(tier, seed, replay=None):
         hist += [list(t) for t in itertools.product(alpha, repeat=L)]
     for _ in range(3000 if big else 500):
         hist.append([r.choice(alpha) for _ in range(r.randrange(3, 9))])
+    # three archives at pairwise distinct priorities in every order of addition, then one of them removed (or re-prioritised):
+    # covers the removal of an archive that serves no name while lower-priority ones stay behind it
+    for trio in itertools.combinations((1, 2, 3, 4), 3):
+        for order in itertools.permutations(trio):
+            for prios in itertools.permutations((-1, 0, 5)):
+                adds = ["a.%d.%d" % (i, p) for i, p in zip(order, prios)]
+                for i in trio:
+                    hist.append(adds + ["r.%d" % i])
+                if big:
+                    for i in trio:
+                        for p in (-1, 5):
+                            hist.append(adds + ["s.%d.%d" % (i, p)])
+                            hist.append(adds + ["r.%d" % i, "a.%d.%d" % (i, p)])
     qhex = ",".join(C.hexs(q.encode()) for q in QUERY)
     qkeys = ",".join(str(keys[fold(q)]) for q in QUERY)
     il, ml = [], []
@@ -202,6 +215,14 @@ def run(tier, seed, replay=None):
             else:
                 q += bytes(r.randrange(1, 9))
             base2 = b0 if r.random() < 0.8 else (b0 + b"x")
+            pl.append(("patchapply %s %s" % (C.hexs(bytes(q)), C.hexs(base2)), bytes(q), base2, None, False))
+        # digests replaced by special values: all zero, all ones, the other digest
+        for lo, val in ((24, bytes(16)), (40, bytes(16)), (40, b"\xff" * 16), (40, p[24:40]), (24, p[40:56])):
+            q = bytearray(p)
+            if bytes(q[lo:lo + 16]) == val:
+                continue
+            q[lo:lo + 16] = val
+            base2 = b0
             pl.append(("patchapply %s %s" % (C.hexs(bytes(q)), C.hexs(base2)), bytes(q), base2, None, False))
     lines = [x[0] for x in pl]
     io2 = C.run_lines(ib, lines)
